@@ -285,7 +285,7 @@ def expect_raises(ctx, key, exc, stmt):
 
 def search_qft(ctx):
     ok = True
-    nmax = 8 if ctx.thorough else 7
+    nmax = 9 if ctx.thorough else 8
     setup_dft = ("def dft(n):\n    N = 2**n\n    j = np.arange(N)\n    return np.exp(2j*np.pi*np.outer(j, j)/N)/np.sqrt(N)\n"
                  "def rev(n):\n    return [int(format(i, f'0{n}b')[::-1], 2) for i in range(2**n)]\n")
     for n in range(1, nmax + 1):
@@ -293,7 +293,7 @@ def search_qft(ctx):
         ok &= check_state(ctx, "QFT:no_swaps", f"QFT({n}, with_swaps=False) is not the bit-reversed DFT",
                           f"QFT({n}, with_swaps=False).unitary()", f"dft({n})[rev({n}), :]", setup_dft, "C20_search_qft")
     # execution on a random state = inverse FFT * sqrt(N); second construction identical
-    for n in (3, 5, 9 if ctx.thorough else 8):
+    for n in (3, 5, 11 if ctx.thorough else 10):
         seed = ctx.rng.randint(0, 10**6)
         setup = setup_dft + f"r = np.random.default_rng({seed}); v = r.normal(size=2**{n}) + 1j*r.normal(size=2**{n}); v /= np.linalg.norm(v)\nQFT({n})\n"
         ok &= check_state(ctx, "QFT:execute", f"QFT({n}) executed on a random state is not its DFT", f"run(QFT({n}), v.copy())",
@@ -320,6 +320,8 @@ def search_simple(ctx):
     # explicit nqubits larger than the string: the remaining qubits stay 0
     ok &= check_state(ctx, "comp_basis_encoder:nqubits", "comp_basis_encoder('101', nqubits=5)", "run(E.comp_basis_encoder('101', nqubits=5))", "np.eye(32)[int('10100', 2)]", "", "C20_search_simple")
     ok &= check_state(ctx, "comp_basis_encoder:nqubits", "comp_basis_encoder(5, nqubits=5)", "run(E.comp_basis_encoder(5, nqubits=5))", "np.eye(32)[5]", "", "C20_search_simple")
+    ok &= check_state(ctx, "comp_basis_encoder:density_matrix", "density_matrix=True", "run(E.comp_basis_encoder('011', density_matrix=True))", "np.outer(np.eye(8)[3], np.eye(8)[3])", "", "C20_search_simple")
+    ok &= check_state(ctx, "phase_encoder:density_matrix", "density_matrix=True", "run(E.phase_encoder([np.pi, 0.0], density_matrix=True))", "np.outer(np.eye(4)[2], np.eye(4)[2])", "", "C20_search_simple")
     expect_raises(ctx, "comp_basis_encoder:errors", "TypeError", "E.comp_basis_encoder(2.5)")
     expect_raises(ctx, "comp_basis_encoder:errors", "ValueError", "E.comp_basis_encoder('0120')")
     expect_raises(ctx, "comp_basis_encoder:errors", "ValueError", "E.comp_basis_encoder([0, 3])")
@@ -399,11 +401,11 @@ def has_zero_pair(x):
 def search_unary(ctx):
     rng = ctx.rng
     ok = True
-    nmax = 9 if ctx.thorough else 8
+    nmax = 12 if ctx.thorough else 10
     for arch in ("diagonal", "tree"):
-        sizes = [n for n in range(2, nmax + 1) if arch == "diagonal" or n & (n - 1) == 0]
+        sizes = [n for n in range(2, nmax + 1) if arch == "diagonal" or n & (n - 1) == 0] + ([16] if arch == "tree" else [])
         for n in sizes:
-            for kind, x in data_vectors(rng, n, False, 20 if n <= 4 else 12):
+            for kind, x in data_vectors(rng, n, False, (40 if ctx.thorough else 20) if n <= 8 else 10):
                 cls = "zero-pair" if (arch == "tree" and has_zero_pair(x)) else ("sparse" if (x == 0).any() else "dense")
                 arg = arr_repr(x) if rng.random() < 0.7 else repr([float(v) for v in x])
                 setup = f"x = {arg}\nx0 = np.array(x, copy=True)\n"
@@ -426,6 +428,8 @@ def search_unary(ctx):
     # the input array is not modified, a second call gives the same circuit
     ok &= check_state(ctx, "unary_encoder:second-call", "second call / input mutation", "run(E.unary_encoder(x, 'tree'))", "unary_target(x0)",
                       "x = np.array([3., -1., 2., 5., 1., 1., -4., 2.])\nx0 = x.copy()\nE.unary_encoder(x, 'tree'); E.unary_encoder(x, 'diagonal')\nassert (x == x0).all()\n", "C20_search_unary")
+    for arch in ("diagonal", "tree"):
+        ok &= check_state(ctx, f"unary_encoder:{arch}:int-dtype", "integer-valued ndarray", f"run(E.unary_encoder(np.array([1, -2, 0, 3]), {arch!r}))", "unary_target([1., -2., 0., 3.])", "", "C20_search_unary")
     expect_raises(ctx, "unary_encoder:errors", "ValueError", "E.unary_encoder(np.ones(6), 'tree')")
     expect_raises(ctx, "unary_encoder:errors", "ValueError", "E.unary_encoder(np.ones(4), 'semi')")
     expect_raises(ctx, "unary_encoder:errors", "TypeError", "E.unary_encoder(np.ones((2, 2)), 'tree')")
@@ -450,11 +454,11 @@ def search_unary(ctx):
 def search_hw(ctx):
     rng = ctx.rng
     ok = True
-    nmax = 7 if ctx.thorough else 6
+    nmax = 8 if ctx.thorough else 7
     for n in range(2, nmax + 1):
         for k in range(1, n):
             d = math.comb(n, k)
-            for kind, x in data_vectors(rng, d, True, 10 if n <= 5 else 6):
+            for kind, x in data_vectors(rng, d, True, (20 if ctx.thorough else 10) if n <= 6 else 6):
                 oc = rng.random() < 0.6
                 cplx = np.iscomplexobj(x)
                 cls = ("complex" if cplx else "real") + (":sparse" if (x == 0).any() else "")
@@ -468,17 +472,31 @@ def search_hw(ctx):
             setup = f"x = {arr_repr(x)}\ninit = np.eye(2**{n}, dtype=complex)[{first}]\n"
             ok &= check_state(ctx, "hamming_weight_encoder:full_hwp", f"hamming_weight_encoder(x, {n}, {k}, full_hwp=True) applied to the first weight-{k} string",
                               f"run(E.hamming_weight_encoder(x, {n}, {k}, full_hwp=True), init)", f"hw_target(x, {n}, {k})", setup, "C20_search_hw")
+    # input array untouched, second call identical, Circuit kwargs passed on
+    ok &= check_state(ctx, "hamming_weight_encoder:second-call", "input mutated / second call differs",
+                      "run(E.hamming_weight_encoder(x, 4, 2))", "hw_target(x0, 4, 2)",
+                      "x = np.array([1., -2., 0., 3., 0.5, -1.]) * np.exp(1j*np.arange(6))\nx0 = x.copy()\nE.hamming_weight_encoder(x, 4, 2); E.hamming_weight_encoder(x, 4, 2, optimize_controls=False)\nassert (x == x0).all()\n", "C20_search_hw")
+    ok &= check_state(ctx, "hamming_weight_encoder:density_matrix", "density_matrix=True", "run(E.hamming_weight_encoder(np.array([1., -2., 2.]), 3, 2, density_matrix=True))",
+                      "np.outer(hw_target([1., -2., 2.], 3, 2), hw_target([1., -2., 2.], 3, 2).conj())", "", "C20_search_hw")
+    # the walk itself on the real code: C(n,k) pairwise different strings of weight k, one 1 moved per step
+    setup = ("def walk_ok(n, k):\n    s = E._ehrlich_algorithm(np.array([1]*k + [0]*(n-k)), False)\n"
+             "    good = len(s) == math.comb(n, k) and len(set(s)) == len(s) and all(len(t) == n and t.count('1') == k for t in s)\n"
+             "    return float(good and all(sum(a != b for a, b in zip(u, v)) == 2 for u, v in zip(s, s[1:])))\n")
+    wmax = 12 if ctx.thorough else 10
+    for n in range(2, wmax + 1):
+        ok &= check_state(ctx, "_ehrlich_algorithm:gray", f"_ehrlich_algorithm for n={n} is not a one-move walk through all weight-k strings",
+                          f"[walk_ok({n}, k) for k in range(1, {n})]", f"[1.0]*({n}-1)", setup, "C20_search_hw")
     ctx.ob("C20_search_hw", ok, "search", "" if ok else "Hamming-weight encoder differs from x/|x| on the weight-k states (ascending order)")
 
 
 def search_binary(ctx):
     rng = ctx.rng
     ok = True
-    nmax = 6 if ctx.thorough else 5
+    nmax = 7 if ctx.thorough else 6
     for par in ("hyperspherical", "hopf"):
         for n in range(1, nmax + 1):
             d = 2**n
-            for kind, x in data_vectors(rng, d, par == "hyperspherical", 20 if n <= 3 else 10):
+            for kind, x in data_vectors(rng, d, par == "hyperspherical", (40 if ctx.thorough else 20) if n <= 4 else 10):
                 cplx = np.iscomplexobj(x)
                 if par == "hopf" and has_zero_pair(x):
                     cls = "zero-pair"
@@ -488,6 +506,11 @@ def search_binary(ctx):
                 ok &= check_state(ctx, f"binary_encoder:{par}:{cls}", f"binary_encoder(x, {par!r}) with x={x.tolist()}",
                                   f"run(E.binary_encoder(x, {par!r}))", "x0/np.linalg.norm(x0)", setup, "C20_search_binary")
                 ctx.stat(f"binary:{par}:{kind.split('+')[0]}")
+    for par in ("hyperspherical", "hopf"):
+        ok &= check_state(ctx, f"binary_encoder:{par}:second-call", "input mutated / second call differs", f"run(E.binary_encoder(x, {par!r}))", "x0/np.linalg.norm(x0)",
+                          f"x = np.array([1., -2., 0., 3., 0.5, -1., 2., 0.25])\nx0 = x.copy()\nE.binary_encoder(x, {par!r}); E.binary_encoder(x, {par!r})\nassert (x == x0).all()\n", "C20_search_binary")
+        ok &= check_state(ctx, f"binary_encoder:{par}:density_matrix", "density_matrix=True", f"run(E.binary_encoder(np.array([1., -2., 2., 4.]), {par!r}, density_matrix=True))",
+                          "np.outer([1., -2., 2., 4.], [1., -2., 2., 4.])/25", "", "C20_search_binary")
     ok &= check_state(ctx, "binary_encoder:default", "default parametrisation", "run(E.binary_encoder(np.array([1., -2., 0., 4.])))", "np.array([1., -2., 0., 4.])/np.sqrt(21)", "", "C20_search_binary")
     expect_raises(ctx, "binary_encoder:errors", "ValueError", "E.binary_encoder(np.ones(5))")
     expect_raises(ctx, "binary_encoder:errors", "ValueError", "E.binary_encoder(np.ones(6), 'hopf')")
